@@ -176,12 +176,12 @@ func (r *reader) Checkpoint() [][]byte {
 // records applied, in state; on every invocation the supplied count must equal
 // the record's ordinal.
 type Handler struct {
-	mu         sync.Mutex
-	w          *World
-	violations []string
-	Applied    map[string]int // "key/split" -> highest ordinal applied + 1 (model, for progress only)
+	mu          sync.Mutex
+	w           *World
+	violations  []string
+	Applied     map[string]int // "key/split" -> highest ordinal applied + 1 (model, for progress only)
 	Invocations int
-	KeyLatency func(n int)
+	KeyLatency  func(n int)
 }
 
 func (h *Handler) violate(f string, a ...any) {
@@ -274,9 +274,9 @@ func (h *Handler) Violations() []string {
 
 // Worker is one process: an operator and a source runner.
 type Worker struct {
-	Name  string
-	Op    *operator.Operator
-	SR    *sourcerunner.SourceRunner
+	Name    string
+	Op      *operator.Operator
+	SR      *sourcerunner.SourceRunner
 	alive   atomic.Bool
 	exiting atomic.Bool
 	depOp   atomic.Bool // the operator has been deployed once
@@ -289,24 +289,25 @@ type GateFn func(n int, kind, from, to string)
 
 // World is one cluster case.
 type World struct {
-	Cfg      Config
-	FS       *storage.MemoryFilesystem
-	Loc      *MemLoc
-	H        *Handler
-	Job      *jobs.Job
-	Clock    *clocks.FrozenClock
+	Cfg       Config
+	FS        *storage.MemoryFilesystem
+	Loc       *MemLoc
+	H         *Handler
+	Job       *jobs.Job
+	Clock     *clocks.FrozenClock
 	oldClocks []*clocks.FrozenClock // clocks of replaced job processes: time passes for them too
-	Src      *source
-	ErrC     chan error
-	mu       sync.Mutex
-	workers  map[string]*Worker
-	byNode   map[string]*Worker // operator id / source runner id -> worker
-	dead     []*Worker
-	dbs      map[any]bool
-	gateN    atomic.Int64
-	Gate     GateFn
-	jobAlive atomic.Bool
-	jobEpoch atomic.Int64
+	Src       *source
+	ErrC      chan error
+	mu        sync.Mutex
+	workers   map[string]*Worker
+	byNode    map[string]*Worker // operator id / source runner id -> worker
+	dead      []*Worker
+	dbs       map[any]bool
+	gateN     atomic.Int64
+	Gate      GateFn
+	jobAlive  atomic.Bool
+	holdAcks  atomic.Bool
+	jobEpoch  atomic.Int64
 	// observations
 	StartCkpts   []uint64
 	SRAcks       []*jobpb.SourceRunnerCheckpointCompleteRequest
@@ -320,12 +321,13 @@ type World struct {
 	RestoredDups []string
 	Delivered    map[string][]Delivered // operator id -> events in arrival order
 	nameSeq      int
+	pointHook    func(name string)
 	Exited       chan string // workers that exited on their own (a supervisor restarts them)
 	// AvoidRedeploy, if set and true, makes a worker restart as a new process when
 	// it is asked to deploy a second time (open finding, excluded by construction)
 	AvoidRedeploy func() bool
-	jobParams    *jobs.NewParams
-	Log          LogBuf
+	jobParams     *jobs.NewParams
+	Log           LogBuf
 }
 
 // LogBuf keeps the most recent log lines.
@@ -414,7 +416,16 @@ func (w *World) noteRestoredSplits(seen map[string]int) {
 	w.mu.Unlock()
 }
 
+// HoldAcks makes checkpoint acknowledgements wait at the transport (bounded),
+// which keeps a checkpoint pending for as long as the harness wants.
+func (w *World) HoldAcks(on bool) { w.holdAcks.Store(on) }
+
 func (w *World) gate(kind, from, to string) {
+	if kind == "op-ack" || kind == "sr-ack" {
+		for i := 0; i < 40000 && w.holdAcks.Load(); i++ {
+			time.Sleep(50 * time.Microsecond)
+		}
+	}
 	n := int(w.gateN.Add(1))
 	if g := w.Gate; g != nil {
 		g(n, kind, from, to)
@@ -495,7 +506,11 @@ func (w *World) installHooks() {
 		if strings.HasPrefix(name, "dkv.") && len(args) > 0 {
 			w.mu.Lock()
 			w.dbs[args[0]] = true
+			h := w.pointHook
 			w.mu.Unlock()
+			if h != nil {
+				h(name)
+			}
 		}
 	})
 	verifhook.SetTuner(func(name string, v any) {
